@@ -14,14 +14,15 @@ MC_HitsX == {<<"u1", "qhit">>, <<"me", "qhit">>, <<"u1", "qphr">>, <<"me", "qphr
 \* Generator configurations (simulation, edge cover) start from a small tree instead of the empty
 \* state, so that the bounded behaviours spend their events on the interesting part.  Every such
 \* initial state is reachable from Init by the prefix the harness executes first:
-\*   PotentialParents({par}), AttemptOk(par), Level(par, 0), then Incoming(c, FALSE) for every c in kids.
-ShapeInit(par, kids) ==
+\*   PotentialParents({par}), AttemptOk(par), Level(par, 0), PotentialParents({cand}), AttemptOk(cand),
+\*   then Incoming(c, FALSE) for every c in kids.
+ShapeInit(par, kids, cand) ==
   LET lv == [p \in P |-> IF p = par THEN 0 ELSE NoLvl]
       rt == [p \in P |-> IF p = par THEN p ELSE None] IN
-    /\ conn = [p \in P |-> IF p = par THEN "openReq" ELSE IF p \in kids THEN "openUnreq" ELSE "none"]
+    /\ conn = [p \in P |-> IF p = par \/ p = cand THEN "openReq" ELSE IF p \in kids THEN "openUnreq" ELSE "none"]
     /\ lvl = lv /\ root = rt
     /\ parent = par /\ children = kids
-    /\ potential = IF par = None THEN {} ELSE {par}
+    /\ potential = ({par} \cup {cand}) \ {None}
     /\ accept = TRUE /\ maxc = InitMax /\ session = TRUE /\ params = {}
     /\ toldServer = SrvTold(par, lv, rt)
     /\ toldChild = [p \in P |-> IF p \in kids THEN Pos(par, lv, rt) ELSE NoTold]
@@ -29,6 +30,16 @@ ShapeInit(par, kids) ==
     /\ addPend = [p \in P |-> None] /\ slow = [p \in P |-> FALSE]
     /\ spc = "idle" /\ rwait = {} /\ nev = 0
     /\ slog = <<>> /\ fwd = [p \in P |-> <<>>] /\ replies = <<>> /\ phr = FALSE
-GenInit == \E par \in {None, "p1"}, kids \in SUBSET (P \ {"p1"}) : ShapeInit(par, kids)
+\* cand: a candidate the server proposed after the parent was chosen; it is connected and has not announced
+\* anything yet (prefix: PotentialParents({cand}), AttemptOk(cand) after the parent's Level)
+GenInit == \E par \in {None, "p1"}, cand \in {None} \cup ({"p3"} \cap P), kids \in SUBSET (P \ {"p1", "p3"}) \cup SUBSET (P \ {"p1"}) :
+             /\ cand \notin kids
+             /\ ShapeInit(par, kids, cand)
+\* Scenario probes: "invariants" whose shortest counterexample from GenInit is a behaviour of a wanted
+\* shape (the harness replays it with the server connection back-pressured from the first Close on).
+\* A: the parent is lost and the already connected candidate becomes the parent while children listen
+ProbeCandidateTakesOver == ~(parent = "p3" /\ children # {} /\ "p1" \in potential)
+\* B: the same, the candidate completing its values with two announcements (level 1, then a root)
+ProbeCandidateTakesOverInTwo == ~(parent = "p3" /\ children # {} /\ "p1" \in potential /\ root["p3"] = "r1")
 GenSpec == GenInit /\ [][Next]_vars
 =============================================================================
